@@ -473,7 +473,7 @@ def programs(draw):
             return ["call", "f1", [scalar(depth - 1, True), scalar(depth - 1, True)]]
         if depth > 0:
             choices += ["uni", "disc", "dr", "bin", "bin", "neg", "abs", "minmax", "call",
-                        "idx", "fdiv"]
+                        "idx", "fdiv", "ident", "ident"]
             if leafnames:
                 choices += ["resample"]
             if tupnames:
@@ -498,6 +498,16 @@ def programs(draw):
             if draw(st.integers(0, 3)) == 0:
                 lo = ["bin", "/", lo, ["c", 2]]
             return ["dr", lo, hi]
+        if k == "ident":
+            # the algebraic shortcuts of the implementation (x+0, 0+x, x-0, x*1, 1*x, x/1, x//1,
+            # x**1 are simplified away) and their non-identities (0-x, 1/x ...)
+            x = scalar(d)
+            form = draw(st.sampled_from(["0-x", "x-0", "x+0", "0+x", "x*1", "1*x", "x//1", "x/1",
+                                         "0*x", "1-x"]))
+            a, op, b = form[0], form[1:-1], form[-1]
+            left = x if a == "x" else ["c", int(a)]
+            right = x if b == "x" else ["c", int(b)]
+            return ["bin", op, left, right]
         if k == "bin":
             return ["bin", draw(st.sampled_from(["+", "-", "*"])), scalar(d), scalar(d)]
         if k == "fdiv":
